@@ -118,8 +118,10 @@ func runC17(c *Ctx) {
 	type event struct {
 		kind  byte // 'W', 'S', 'T'
 		chunk []byte
+		str   bool // handed over with io.WriteString, as fmt and text/template users do
 	}
 	var events []event
+	strMix := g.Chance(3)
 	pos := 0
 	for pos < len(stream) || g.Chance(6) {
 		switch g.Weighted(8, 2, 2) {
@@ -141,7 +143,7 @@ func runC17(c *Ctx) {
 			if pos+k > len(stream) {
 				k = len(stream) - pos
 			}
-			events = append(events, event{kind: 'W', chunk: stream[pos : pos+k]})
+			events = append(events, event{kind: 'W', chunk: stream[pos : pos+k], str: strMix && g.Chance(2)})
 			pos += k
 		case 1:
 			events = append(events, event{kind: 'S'})
@@ -255,7 +257,16 @@ func runC17(c *Ctx) {
 				// every time and overwrites it as soon as Write has returned
 				arg := scratch[:len(ev.chunk)]
 				copy(arg, ev.chunk)
-				nn, err := wr.Write(arg)
+				var nn int
+				var err error
+				if ev.str {
+					// io.WriteString uses whatever the writer offers for strings; the
+					// stream is the same stream
+					c.R.Probe("chunks handed over with io.WriteString between Write calls")
+					nn, err = io.WriteString(wr, string(arg))
+				} else {
+					nn, err = wr.Write(arg)
+				}
 				if nn != len(ev.chunk) || err != nil {
 					c.Fail("C17: Write did not report all bytes as consumed", "event %d: Write(%d bytes) returned (%d, %v)", i, len(ev.chunk), nn, err)
 					return
